@@ -1686,7 +1686,8 @@ class LeCreditBasedChannel(utils.EventEmitter):
 
         # Check that we can start a new connection
         identifier = self.manager.next_identifier(self.connection)
-        if identifier in self.manager.le_coc_requests:
+        request_key = (self.connection.handle, identifier)
+        if request_key in self.manager.le_coc_requests:
             raise InvalidStateError('too many concurrent connection requests')
 
         # Create a future to wait for the response
@@ -1702,7 +1703,7 @@ class LeCreditBasedChannel(utils.EventEmitter):
             mps=self.mps,
             initial_credits=self.peer_credits,
         )
-        self.manager.le_coc_requests[identifier] = request
+        self.manager.le_coc_requests[request_key] = request
         self.send_control_frame(request)
 
         # Wait for the connection to succeed or fail
@@ -1737,9 +1738,12 @@ class LeCreditBasedChannel(utils.EventEmitter):
         if self.connection_result is not None:
             self.connection_result.cancel()
             self.connection_result = None
-            for identifier, request in list(self.manager.le_coc_requests.items()):
-                if request.source_cid == self.source_cid:
-                    del self.manager.le_coc_requests[identifier]
+            for request_key, request in list(self.manager.le_coc_requests.items()):
+                if (
+                    request_key[0] == self.connection.handle
+                    and request.source_cid == self.source_cid
+                ):
+                    del self.manager.le_coc_requests[request_key]
         if self.disconnection_result is not None:
             self.disconnection_result.set_result(None)
             self.disconnection_result = None
@@ -2059,7 +2063,7 @@ class ChannelManager:
     servers: dict[int, ClassicChannelServer]
     le_coc_channels: dict[int, dict[int, LeCreditBasedChannel]]
     le_coc_servers: dict[int, LeCreditBasedChannelServer]
-    le_coc_requests: dict[int, L2CAP_LE_Credit_Based_Connection_Request]
+    le_coc_requests: dict[tuple[int, int], L2CAP_LE_Credit_Based_Connection_Request]
     fixed_channels: dict[int, Callable[[int, bytes], Any] | None]
     pending_credit_based_connections: dict[
         int,
@@ -2091,7 +2095,8 @@ class ChannelManager:
             {}
         )  # LE CoC channels, mapped by connection and destination cid
         self.le_coc_servers = {}  # LE CoC - Servers accepting connections, by PSM
-        self.le_coc_requests = {}  # LE CoC connection requests, by identifier
+        # LE CoC connection requests, by (connection handle, identifier)
+        self.le_coc_requests = {}
         self.pending_credit_based_connections = (
             {}
         )  # Credit-based connection request contexts, by connection handle and identifier
@@ -2740,7 +2745,11 @@ class ChannelManager:
         response: L2CAP_LE_Credit_Based_Connection_Response,
     ) -> None:
         # Find the pending request by identifier
-        if not (request := self.le_coc_requests.pop(response.identifier, None)):
+        if not (
+            request := self.le_coc_requests.pop(
+                (connection.handle, response.identifier), None
+            )
+        ):
             logger.warning(color('!!! received response for unknown request', 'red'))
             return
 
